@@ -2,6 +2,7 @@ package checks
 
 import (
 	"bytes"
+	"encoding/json"
 	"fmt"
 	"os"
 	"path/filepath"
@@ -166,7 +167,7 @@ func C13(ctx *core.Ctx) int {
 	progs = append(progs, dsl.P5()...)
 	progs = append(progs, dsl.P6()...)
 	for _, p := range dsl.P4() {
-		if strings.Contains(p.Name, "collide") || strings.Contains(p.Name, "initialism") || ctx.Thorough() {
+		if strings.Contains(p.Name, "collide") || strings.Contains(p.Name, "initialism") || strings.Contains(p.Name, "packet-long") || strings.Contains(p.Name, "inline-long") || ctx.Thorough() {
 			progs = append(progs, p)
 		}
 	}
@@ -259,9 +260,13 @@ func C13(ctx *core.Ctx) int {
 	if ctx.Thorough() {
 		runsPer = 32
 	}
+	// answers of the environment that the seam does not own (per-process hash seeds, random numbers, process ids,
+	// the environment, ...; reported by the rewriter): only fresh processes can vary them, so when the tree uses any,
+	// every program gets its free runs
+	unowned := unownedSources(ctx)
 	core.Parallel(len(progs), func(i int) {
 		p := progs[i]
-		if !ctx.Thorough() && !(strings.HasPrefix(p.Name, "P5/") || strings.HasPrefix(p.Name, "P6/") || strings.Contains(p.Name, "collide") || i%7 == 0) {
+		if !ctx.Thorough() && len(unowned) == 0 && !(strings.HasPrefix(p.Name, "P5/") || strings.HasPrefix(p.Name, "P6/") || strings.HasPrefix(p.Name, "P4/") || i%7 == 0) {
 			return
 		}
 		text := p.Text()
@@ -399,9 +404,36 @@ func C13(ctx *core.Ctx) int {
 		"rule": "stateless choice-point DFS: every range over a map in the module's own packages and every time.Now() is a choice point (found by go/types, rewritten by overlay); one execution = real parse + one real generator under a schedule of choices; all schedules enumerated (all n! orders for maps up to the stated n; beyond it identity, adjacent transpositions, rotation, reversal). " +
 			"states = distinct (program, generator, output tree) outcomes; transitions = executions. oracle: every schedule's file map equals the all-default schedule's. traces validated = runs of the un-instrumented binary whose trees must lie inside the enumerated outcome set",
 	}
+	cov["sources_of_nondeterminism_the_seam_does_not_own"] = unowned
+	if len(unowned) > 0 {
+		ctx.Assumes = append(ctx.Assumes, "the tree uses sources of nondeterminism the seam does not own ("+strings.Join(unowned, ", ")+"): for them the fresh-process runs of the real binary (every program, "+fmt.Sprint(runsPer)+" runs) are the only exploration")
+	}
 	ctx.Assumes = append(ctx.Assumes, "nondeterminism inside third-party packages (ANTLR runtime, strcase, text/template) is not enumerated; the free runs of the real binary are the only look at it",
 		"the clock has two answers: now and now + 1 year")
 	return ctx.Finish("model_checking", cov)
+}
+
+// unownedSources reads the rewriter's report of range statements it had to leave as written and of calls / imports
+// that answer from the environment.
+func unownedSources(ctx *core.Ctx) []string {
+	b, err := os.ReadFile(filepath.Join(filepath.Dir(ctx.Overlay), "sites.json"))
+	if err != nil {
+		return nil
+	}
+	var r struct {
+		Sites []struct{ ID, Kind string } `json:"sites"`
+	}
+	if json.Unmarshal(b, &r) != nil {
+		return nil
+	}
+	var out []string
+	for _, s := range r.Sites {
+		if s.Kind == "unowned-source" || strings.HasPrefix(s.Kind, "range-map-unowned") {
+			out = append(out, s.ID)
+		}
+	}
+	sort.Strings(out)
+	return out
 }
 
 // orderDependent: the explorer enumerated more than one outcome for (program, target).
@@ -460,9 +492,19 @@ func c13Explore(ctx *core.Ctx, name, text, lang string, st *c13Stats, fullPerm, 
 	if base == "NOT-ACCEPTED" {
 		return nil, false
 	}
+	unownedReport := func(a, b string, prefix []int) {
+		// same input file, same schedule of every choice the seam owns, same process - and another output
+		ctx.Report(lang+" output differs between two executions under one and the same schedule (a source of nondeterminism other than map order and the clock)|"+progName(name),
+			fmt.Sprintf("program %s, generator %s, schedule %v executed twice\nfirst difference: %s", name, lang, prefix, firstDiffLine(a, b)),
+			map[string]any{"name": name, "text": text, "lang": lang, "choices": prefix})
+	}
+	if _, again := exec(nil); again != base {
+		unownedReport(base, again, nil)
+		return nil, false
+	}
 	outcomes := map[string]bool{core.Hash(base): true}
 	st.outcomes.Store(core.Hash(name, lang, base), true)
-	atomic.AddInt64(&st.execs, 1)
+	atomic.AddInt64(&st.execs, 2)
 	atomic.AddInt64(&st.points, int64(len(c0.points)))
 	reduced := false
 	total := 1
@@ -499,7 +541,8 @@ func c13Explore(ctx *core.Ctx, name, text, lang string, st *c13Stats, fullPerm, 
 			// confirm determinism of the schedule itself before believing it
 			_, again := exec(prefix)
 			if again != out {
-				core.HarnessError("C13 %s/%s: the same schedule %v gave two different outputs: nondeterminism not owned by the seam", name, lang, prefix)
+				unownedReport(out, again, prefix)
+				return
 			}
 			var sites []string
 			for i, ch := range c.choices {
